@@ -1,0 +1,11 @@
+//go:build !verif
+
+package utils
+
+import (
+	"github.com/projectcalico/calico/cni-plugin/pkg/types"
+	client "github.com/projectcalico/calico/libcalico-go/lib/clientv3"
+)
+
+// verifClientHook is a constant nil in every normal build (see zz_verif_hook_on.go).
+func verifClientHook(types.NetConf) client.Interface { return nil }
